@@ -213,7 +213,7 @@ def native_check(c, registry, args):
     """
     fn = c.fn
     short = fn.__qualname__
-    order = list(args)
+    order = [k for k in args if not k.startswith('ghost_')]
     failures = []
     info = {}
     cc = registry.class_contract_of(c)
@@ -224,10 +224,14 @@ def native_check(c, registry, args):
     if cc is not None and cc.inv is not None and not c.is_init and 'self' in args and c.assume_inv:
         if not cc.inv(args['self']):
             return None, {'skipped': 'class invariant false on input'}
-    old = types.SimpleNamespace(**copy.deepcopy(dict(args)))
+    old = types.SimpleNamespace(**copy.deepcopy({k: v for k, v in args.items()
+                                                  if not k.startswith('ghost_')}))
     ns_old = dict(vars(old))
     ns_old['old'] = old
     ns['old'] = old
+    for gk, gv in args.items():
+        if gk.startswith('ghost_'):
+            ns_old[gk] = gv
     try:
         result = fn(*[args[k] for k in order])
         outcome = 'return'
@@ -313,8 +317,14 @@ def sample_args(c, registry, rng):
     sig = inspect.signature(c.fn)
     cc = registry.class_contract_of(c)
     out = {}
+    joint = c.sample_params(rng) if c.sample_params is not None else {}
+    for gk, gv in joint.items():
+        if gk.startswith('ghost_'):
+            out[gk] = gv
     for pname, p in sig.parameters.items():
-        if pname in c.params:
+        if pname in joint:
+            out[pname] = joint[pname]
+        elif pname in c.params:
             out[pname] = lower(c.params[pname].sample(rng))
         elif pname == 'self' and cc is not None and cc.shape is not None:
             if c.is_init:
